@@ -28,6 +28,7 @@ static PROBE: Mutex<Option<Value>> = Mutex::new(None);
 fn mk_env() -> Environment<'static> {
     let mut env = Environment::new();
     minijinja_contrib::add_to_environment(&mut env);
+    env.set_unknown_method_callback(minijinja_contrib::pycompat::unknown_method_callback);
     env.add_function("probe", |v: Value| -> String {
         *PROBE.lock().unwrap() = Some(v);
         String::new()
@@ -231,6 +232,8 @@ fn subst(t: &str, pass: usize) -> String {
             'q' => q2,
             'K' => k1,
             'k' => k2,
+            '‹' => '{',
+            '›' => '}',
             c => c,
         })
         .collect()
@@ -396,8 +399,22 @@ fn model_build(enc: &str, steps: &mut Vec<String>, nreg: &mut usize) -> Option<u
             *nreg += 1;
             return Some(*nreg - 1);
         }
-        if t == "M" {
-            return None;
+        if t == "M" && p.peek() == b'(' {
+            p.i += 1;
+            let mut kis = vec![];
+            while p.peek() != b')' {
+                let k = p.token();
+                p.i += 1;
+                let r = go(p, steps, nreg)?;
+                kis.push(format!("{}={}", if k.is_empty() { "-".to_string() } else { k }, r));
+                if p.peek() == b';' {
+                    p.i += 1;
+                }
+            }
+            p.i += 1;
+            steps.push(format!("K {}", if kis.is_empty() { "-".into() } else { kis.join(",") }));
+            *nreg += 1;
+            return Some(*nreg - 1);
         }
         if let Some(r) = t.strip_prefix("S1:") {
             steps.push(format!("D {r}"));
@@ -516,33 +533,39 @@ static FDEFS: &[FDef] = &[
     f("safe", "a0|safe", &["s0"], "safe", &[]),
     f("tojson", "a0|tojson", &["s0"], "tojson", &[]),
     // ---- class only
-    c("attr", "a0|attr('k')", &["M(k=s0;v=s1)"]),
-    c("batch", "a0|batch(2, a1)", &["L(s0;s1;s2)", "s3"]),
+    f("attr", "a0|attr(a1)", &["M(k=s0;v=s1)", "n{k}"], "attr", &[]),
+    f("attr", "a0|attr(a1)", &["M(k=s0;v=s1)", "n{zz}"], "attr", &[]),
+    f("batch", "a0|batch(2, a1)", &["L(s0;s1;s2)", "s3"], "batch", &[2]),
+    f("batch", "a0|batch(2)", &["L(s0;s1;s2)"], "batch", &[2]),
     c("slice", "a0|slice(2, a1)", &["L(s0;s1;s2)", "s3"]),
-    c("sort", "a0|sort", &["L(s0;s1;s2)"]),
-    c("sort", "a0|sort(reverse=true, case_sensitive=true)", &["L(s0;s1;s2)"]),
-    c("sort", "a0|sort(attribute='k')", &[REC]),
-    c("unique", "a0|unique", &["L(s0;s1;s0;s2)"]),
-    c("unique", "a0|unique(attribute='k')", &[REC]),
-    c("min", "a0|min", &["L(s0;s1;s2)"]),
-    c("max", "a0|max", &["L(s0;s1;s2)"]),
-    c("select", "a0|select", &["L(s0;s4;s1)"]),
-    c("select", "a0|select('string')", &["L(s0;I:1;s1)"]),
-    c("reject", "a0|reject('undefined')", &["L(s0;U;s1)"]),
+    f("sort", "a0|sort", &["L(s0;s1;s2)"], "sort", &[0, 0]),
+    f("sort", "a0|sort(reverse=true, case_sensitive=true)", &["L(s0;s1;s2;s3)"], "sort", &[1, 1]),
+    f("sort", "a0|sort", &["L(c0{Qb|Kb};c1{QB|KB};c2{qa|ka};c3{QA|KA})"], "sort", &[0, 0]),
+    c("sort#select", "a0|sort(attribute='k')", &[REC]),
+    f("unique", "a0|unique(case_sensitive=true)", &["L(s0;s1;s0;s2;s1)"], "unique", &[]),
+    c("unique#select", "a0|unique", &["L(s0;s1;s0;s2)"]),
+    c("unique#select", "a0|unique(attribute='k')", &[REC]),
+    f("min", "a0|min", &["L(s0;s1;s2)"], "min", &[]),
+    f("max", "a0|max", &["L(s0;s1;s2)"], "max", &[]),
+    f("min", "a0|min", &["L()"], "min", &[]),
+    f("select", "a0|select", &["L(s0;s4;s1)"], "select", &[]),
+    f("reject", "a0|reject", &["L(s0;s4;s1)"], "reject", &[]),
+    c("select#select", "a0|select('string')", &["L(s0;I:1;s1)"]),
+    c("reject#select", "a0|reject('undefined')", &["L(s0;U;s1)"]),
     c("selectattr", "a0|selectattr('k')", &[REC]),
     c("rejectattr", "a0|rejectattr('k', 'none')", &[REC]),
     c("groupby", "a0|groupby('k')", &[REC]),
     c("groupby", "a0|groupby('z', default=a1)", &[REC, "s4"]),
-    c("dictsort", "a0|dictsort", &["M(x=s0;y=s1)"]),
-    c("dictsort", "a0|dictsort(by='value')", &["M(x=s0;y=s1)"]),
-    c("items", "a0|items", &["M(x=s0;y=s1)"]),
+    f("dictsort", "a0|dictsort", &["M(x=s0;y=s1)"], "dictsort", &[]),
+    c("dictsort#select", "a0|dictsort(by='value', reverse=true)", &["M(x=s0;y=s1)"]),
+    f("items", "a0|items", &["M(x=s0;y=s1)"], "items", &[]),
     c("chain", "a0|chain(a1)", &["L(s0;s1)", "L(s2)"]),
     c("chain", "a0|chain(a1)", &["M(x=s0)", "M(y=s1)"]),
     c("zip", "a0|zip(a1)", &["L(s0;s1)", "L(s2;s3)"]),
     c("pluralize", "a0|pluralize(a1, a2)", &["I:1", "s0", "s1"]),
     c("pluralize", "a0|pluralize(a1, a2)", &["I:2", "s0", "s1"]),
-    c("map", "a0|map(attribute='k')", &[REC]),
-    c("map", "a0|map(attribute='z', default=a1)", &[REC, "s4"]),
+    c("map#select", "a0|map(attribute='k')", &[REC]),
+    c("map#select", "a0|map(attribute='z', default=a1)", &[REC, "s4"]),
     c("cycler", "cycler([a0, a1]).next()", &["s0", "s1"]),
     ct("joiner", "{% set j = joiner(a0) %}{{ probe([j(), j(), j()]) }}", &["s0"]),
     c("dict", "dict(x=a0, y=a1)", &["s0", "s1"]),
@@ -563,6 +586,64 @@ static FDEFS: &[FDef] = &[
     c("striptags", "a0|striptags", &["s0"]),
     c("filesizeformat", "a0|filesizeformat", &["I:1000000"]),
     c("debug", "debug()", &["s0"]),
+    // ---- contrib filters / functions behind cargo features (skipped by the checker if not registered)
+    c("random", "a0|random", &["L(s0;s1;s2)"]),
+    c("random", "a0|random", &["s0"]),
+    c("lipsum", "lipsum(1, html=true)", &[]),
+    c("lipsum", "lipsum(2, min=3, max=5)", &[]),
+    c("wordcount", "a0|wordcount", &["s0"]),
+    c("wordwrap", "a0|wordwrap(width=4)", &["s0"]),
+    c("wordwrap", "a0|wordwrap(width=3, wrapstring=a1)", &["s3", "c1{Q|K}"]),
+    c("datetimeformat", "a0|datetimeformat", &["I:1700000000"]),
+    c("dateformat", "a0|dateformat", &["I:1700000000"]),
+    c("timeformat", "a0|timeformat", &["I:1700000000"]),
+    c("datetimeformat", "a0|datetimeformat(format=a1)", &["I:1700000000", "c1{Q%Y|K%Y}"]),
+    c("now", "now()", &[]),
+    c("randrange", "randrange(5)", &[]),
+    // ---- pycompat methods (unknown_method_callback)
+    f("str.upper", "a0.upper()", &["s0"], "str.upper", &[]),
+    f("str.lower", "a0.lower()", &["c0{QΑΒq Γ|KBkΑΒ}"], "str.lower", &[]),
+    f("str.title", "a0.title()", &["c0{αβ γΔq-εQζ|αβ KbΒk}"], "str.title", &[]),
+    f("str.strip", "a0.strip()", &["s3"], "str.strip", &[]),
+    f("str.strip", "a0.strip(a1)", &["s0", "c1{Qα|Kb}"], "str.strip", &[]),
+    f("str.lstrip", "a0.lstrip()", &["s3"], "str.lstrip", &[]),
+    f("str.lstrip", "a0.lstrip(a1)", &["s0", "c1{Qα|Kb}"], "str.lstrip", &[]),
+    f("str.rstrip", "a0.rstrip()", &["s3"], "str.rstrip", &[]),
+    f("str.rstrip", "a0.rstrip(a1)", &["s0", "c1{Q&α|k}"], "str.rstrip", &[]),
+    f("str.replace", "a0.replace(a1, a2)", &["s0", "s1", "s2"], "str.replace", &[]),
+    f("str.replace", "a0.replace(a1, a2)", &["s0", "c1{Q|K}", "s2"], "str.replace", &[]),
+    f("str.replace", "a0.replace(a1, a2)", &["c0{KliknameK/lik|KliknameK/lik}", "n{name}", "s2"], "str.replace", &[]),
+    c("str.replace#count", "a0.replace(a1, a2, 1)", &["s0", "s1", "s2"]),
+    f("str.join", "a0.join(a1)", &["c0{Q-q|K-k}", "L(s0;s1;s2)"], "str.join", &[]),
+    f("str.join", "a0.join(a1)", &["s1", "L(s0;I:7)"], "str.join", &[]),
+    f("str.splitlines", "a0.splitlines()", &["s3"], "str.splitlines", &[]),
+    c("str.splitlines#keepends", "a0.splitlines(true)", &["s3"]),
+    f("str.capitalize", "a0.capitalize()", &["s0"], "str.capitalize", &[]),
+    f("str.capitalize", "a0.capitalize()", &["c0{αΒq Γ|αKBkΑΒ}"], "str.capitalize", &[]),
+    f("str.split", "a0.split(a1)", &["s0", "n{α}"], "str.split", &[]),
+    f("str.split", "a0.split()", &["s3"], "str.split", &[]),
+    f("str.split", "a0.split(a1, 1)", &["c0{QαqαQα|KαkαKα}", "n{α}"], "str.split", &[1]),
+    c("str.islower", "a0.islower()", &["s1"]),
+    c("str.isupper", "a0.isupper()", &["s1"]),
+    c("str.isspace", "a0.isspace()", &["s3"]),
+    c("str.isdigit", "a0.isdigit()", &["c0{12|34}"]),
+    c("str.isnumeric", "a0.isnumeric()", &["c0{12|34}"]),
+    c("str.isalnum", "a0.isalnum()", &["s1"]),
+    c("str.isalpha", "a0.isalpha()", &["s1"]),
+    c("str.isascii", "a0.isascii()", &["s0"]),
+    c("str.count", "a0.count(a1)", &["s0", "s1"]),
+    c("str.find", "a0.find(a1)", &["s0", "s1"]),
+    c("str.rfind", "a0.rfind(a1)", &["s0", "s1"]),
+    c("str.format", "a0.format(a1, x=a2)", &["c0{Q‹›q‹x›|K‹›k‹x›}", "s1", "s2"]),
+    c("str.format", "a0.format(a1)", &["c0{Q‹:>9›|K‹:>9›}", "s0"]),
+    c("str.startswith", "a0.startswith(a1)", &["s0", "s1"]),
+    c("str.endswith", "a0.endswith(a1)", &["s0", "L(s1;s2)"]),
+    f("dict.items", "a0.items()", &["M(x=s0;y=s1)"], "dict.items", &[]),
+    f("dict.keys", "a0.keys()", &["M(x=s0;y=s1)"], "dict.keys", &[]),
+    f("dict.values", "a0.values()", &["M(x=s0;y=s1)"], "dict.values", &[]),
+    f("dict.get", "a0.get(a1)", &["M(x=s0;y=s1)", "n{y}"], "dict.get", &[]),
+    f("dict.get", "a0.get(a1, a2)", &["M(x=s0)", "n{z}", "s1"], "dict.get", &[]),
+    c("list.count", "a0.count(a1)", &["L(s0;s1;s0)", "s0"]),
 ];
 
 fn gen_fc(out: &mut impl Write, tier: &str) {
@@ -587,6 +668,7 @@ fn gen_fc(out: &mut impl Write, tier: &str) {
                     for (i, e) in encs.iter().enumerate() {
                         ctx.insert(format!("a{i}"), json!(e));
                     }
+                    ctx.insert("RAND_SEED".into(), json!("I:42"));
                     let src = match def.tmpl {
                         Some(t) => t.to_string(),
                         None => format!("{{{{ probe({}) }}}}", def.expr),
@@ -759,6 +841,8 @@ enum E {
     Mul(Box<E>, u32),
     /// model name, template syntax after `|` with {1} {2} for extra args, args[0] = subject, numeric params
     Filt(String, String, Vec<E>, Vec<u64>),
+    /// pycompat method call `recv.name(args)`: method name, receiver + arguments, numeric params
+    Meth(String, Vec<E>, Vec<u64>),
     Index(Box<E>, usize),
     Slice(Box<E>, usize, usize),
     List(Vec<E>),
@@ -836,6 +920,7 @@ fn expr_src(e: &E) -> String {
             }
             format!("({})|{}", expr_src(&args[0]), s)
         }
+        E::Meth(name, args, _) => format!("({}).{}({})", expr_src(&args[0]), name, args[1..].iter().map(expr_src).collect::<Vec<_>>().join(", ")),
         E::Index(a, k) => format!("({})[{}]", expr_src(a), k),
         E::Slice(a, x, y) => format!("({})[{}:{}]", expr_src(a), x, y),
         E::List(xs) => format!("[{}]", xs.iter().map(expr_src).collect::<Vec<_>>().join(", ")),
@@ -905,6 +990,11 @@ fn expr_sx(e: &E) -> String {
             let mut items = vec![enc_str(model), sx_list("ps", nums(ps))];
             items.extend(args.iter().map(expr_sx));
             sx_list("filt", items)
+        }
+        E::Meth(name, args, ps) => {
+            let mut items = vec![enc_str(name), sx_list("ps", nums(ps))];
+            items.extend(args.iter().map(expr_sx));
+            sx_list("meth", items)
         }
         E::Index(a, k) => format!("(index {} {})", expr_sx(a), k),
         E::Slice(a, x, y) => format!("(slice {} {} {})", expr_sx(a), x, y),
@@ -1108,7 +1198,27 @@ impl Gen {
             return if !sc.strs.is_empty() && self.rng.chance(3, 4) { E::Var(self.rng.pick(&sc.strs).clone()) } else { E::Lit(self.data(5)) };
         }
         let d = depth - 1;
-        match self.rng.below(24) {
+        match self.rng.below(27) {
+            24 => {
+                self.feat("method-str");
+                let m = *self.rng.pick(&["upper", "lower", "title", "strip", "lstrip", "rstrip", "capitalize"]);
+                E::Meth(m.into(), vec![self.sure_str(d, sc)], vec![])
+            }
+            25 => {
+                self.feat("method-replace");
+                E::Meth("replace".into(), vec![self.sure_str(d, sc), self.pattern_str(sc), self.sure_str(d, sc)], vec![])
+            }
+            26 => {
+                if self.rng.chance(1, 2) {
+                    self.feat("method-join");
+                    E::Meth("join".into(), vec![self.sure_str(d, sc), self.list_expr(d, sc)], vec![])
+                } else {
+                    self.feat("method-dict");
+                    let kvs = vec![("a".to_string(), self.str_expr(d, sc)), ("b".to_string(), self.str_expr(d, sc))];
+                    let k = if self.rng.chance(1, 2) { "a" } else { "zz" };
+                    E::Meth("get".into(), vec![E::Dict(kvs), E::Lit(k.into()), self.str_expr(d, sc)], vec![])
+                }
+            }
             0 => { self.feat("~"); E::Bin("~", Box::new(self.str_expr(d, sc)), Box::new(self.str_expr(d, sc))) }
             1 => { self.feat("+"); E::Bin("+", Box::new(self.sure_str(d, sc)), Box::new(self.sure_str(d, sc))) }
             2 => { self.feat("*"); let n = self.rng.below(3) as u32; E::Mul(Box::new(self.sure_str(d, sc)), n) }
@@ -1198,6 +1308,10 @@ impl Gen {
             _ => E::Lit(self.data(4)),
         }
     }
+    /// a search pattern that certainly is a string
+    fn pattern_str(&mut self, sc: &Scope) -> E {
+        if self.rng.chance(1, 2) { E::Lit(self.rng.pick(&["α", "<", "&", "'", "&lt;", "β", " ", "amp;"]).to_string()) } else { self.sure_str(0, sc) }
+    }
     /// a condition: flag, loop.first, truthiness of a string / list variable, negation
     fn cond_expr(&mut self, sc: &Scope) -> E {
         match self.rng.below(6) {
@@ -1248,6 +1362,15 @@ impl Gen {
             2 => { self.feat("lines"); E::Filt("lines".into(), "lines".into(), vec![self.str_expr(d, sc)], vec![]) }
             3 => { self.feat("list"); E::Filt("list".into(), "list".into(), vec![self.str_expr(d, sc)], vec![]) }
             4 => { self.feat("map"); E::Filt("map.escape".into(), "map(\"e\")".into(), vec![self.list_expr(d, sc)], vec![]) }
+            6 => {
+                self.feat("method-split");
+                if self.rng.chance(1, 2) {
+                    let sep = E::Lit(self.rng.pick(&["α", " ", "<", "&", "'", "β"]).to_string());
+                    E::Meth("split".into(), vec![self.sure_str(d, sc), sep], vec![])
+                } else {
+                    E::Meth("splitlines".into(), vec![self.sure_str(d, sc)], vec![])
+                }
+            }
             5 => { self.feat("map"); E::Filt("map.replace".into(), "map(\"replace\", {1}, {2})".into(), vec![self.list_expr(d, sc), self.pattern(sc), self.str_expr(d, sc)], vec![]) }
             _ => self.iter_expr(depth, sc),
         }
